@@ -16,7 +16,7 @@ def main():
                 print("PATCH FAILED"); return 3
         else:
             rel, old, new = sys.argv[2:5]
-            rd = lambda x: open(x[1:]).read() if x.startswith("@") else x
+            rd = lambda x: open(x[2:]).read() if x.startswith("@@") else x
             old, new = rd(old), rd(new)
             p = os.path.join(dst, rel)
             s = open(p).read()
